@@ -18,6 +18,7 @@ pub struct P09 {
     pub hostile: usize,
     pub max_sends: usize,
     pub sizes: Vec<Size>,
+    pub all_pieces: bool,
     /// polls seen since a generation became "closed and fully answered"
     due: HashMap<usize, usize>,
     trips: u64,
@@ -25,7 +26,7 @@ pub struct P09 {
 
 impl P09 {
     pub fn new(hostile: usize, max_sends: usize) -> Self {
-        P09 { hostile, max_sends, sizes: vec![Size::Small], due: HashMap::new(), trips: 0 }
+        P09 { hostile, max_sends, sizes: vec![Size::Small], all_pieces: false, due: HashMap::new(), trips: 0 }
     }
 
     /// generations whose server side must be released: client fully closed, nothing owed
@@ -107,6 +108,11 @@ impl HistoryProp for P09 {
                             v.push(Act::Send(c, Piece::Bad));
                             v.push(Act::Send(c, Piece::Head));
                             v.push(Act::Send(c, Piece::Oversize));
+                            if self.all_pieces {
+                                for p in [Piece::Put, Piece::Big, Piece::Expect, Piece::GetExpect, Piece::Garbage] {
+                                    v.push(Act::Send(c, p));
+                                }
+                            }
                         }
                     }
                     v.push(Act::Close(c));
@@ -469,6 +475,10 @@ pub fn run(ctx: &mut Ctx) {
     p.sizes = vec![Size::Small, Size::Large];
     let n = ctx.budget(12_000, 600_000) / ctx.nshards;
     hist::random_histories(ctx, &mut p, n, 15, 70, "C09", &mut choose);
+    let mut p = P09::new(3, 6);
+    p.sizes = vec![Size::Small, Size::Medium, Size::Large];
+    p.all_pieces = true;
+    hist::random_histories(ctx, &mut p, n / 2 + 1, 15, 90, "C09", &mut choose);
     vanishing_client_family(ctx, ctx.budget(1_600, 60_000) / ctx.nshards);
     capacity_churn_family(ctx, ctx.budget(3_200, 120_000) / ctx.nshards);
     if ctx.rep.samples.is_empty() {
@@ -478,6 +488,7 @@ pub fn run(ctx: &mut Ctx) {
 
 pub fn replay(ctx: &mut Ctx, case: &J) {
     let mut p = P09::new(11, 8);
+    p.all_pieces = true;
     p.sizes = vec![Size::Small, Size::Large];
     hist::replay_history(ctx, &mut p, case, "C09");
 }
